@@ -90,6 +90,15 @@ def project(events):
 
 
 def run_job(job):
+    """a foreign outcome (exception outside the library's hierarchy, time-out, runaway polling) only counts when it repeats:
+    a worker on a machine short of memory or CPU can fail once for reasons of its own"""
+    r = _run_job(job)
+    if r['ev'][-W + 2] not in (1, 2):
+        r = _run_job(job)
+    return r
+
+
+def _run_job(job):
     jid, rules, T, streaming, chunks = job
     spec = U.build_type(T) if T is not None else None
     data = bytes(b for c in chunks for b in c)
